@@ -11,7 +11,7 @@ From Coq Require Import List NArith Bool Strings.Byte.
 From Sftp Require Import Base.GoSem Wire.Prim Wire.Packets Path.Clean Err.Status Srv.ReadOnly Srv.OpenFlags
                          Proofs.CleanP Proofs.StatusP Proofs.OpenFlagsP Fs.Tree Proofs.TreeP.
 Import ListNotations.
-From Sftp Require Proofs.TreeRenameP Proofs.TreeWalkP.
+From Sftp Require Proofs.TreeRenameP Proofs.TreeWalkP Proofs.TreeGlobP.
 Open Scope N_scope.
 
 (* ok / not-exist / permission / EOF / other failure: the category of every error package os can return, bare or inside
@@ -220,3 +220,39 @@ Example C05_walk_nonvacuous :
   let t := [([1], FsTree.KDir); ([1; 2], FsTree.KDir); ([1; 2; 3], FsTree.KFile); ([1; 4], FsTree.KLink); ([5], FsTree.KFile)]%nat in
   FsTree.c_walk 5 t [1]%nat FsTree.KDir = [([1], FsTree.KDir); ([1; 2], FsTree.KDir); ([1; 2; 3], FsTree.KFile); ([1; 4], FsTree.KLink)]%nat.
 Proof. vm_compute. reflexivity. Qed.
+
+(* ---- Client.Glob (match.go) against the component-by-component expansion of the pattern (what filepath.Glob means). What
+   path.Match says about a component pattern and a name is GIVEN (package path is outside the repository; MODELLED: cp_all /
+   cp_names, computed by package path itself in the tie). For every well-formed tree and every pattern whose components without
+   magic characters match exactly their own name: Glob's three routes - one LSTAT when the pattern has no magic character,
+   glob(dir, file) directly when the directory part has none, Glob(dir) first otherwise - return the same set of paths as the
+   expansion, and are outside the model (a symbolic link would have to be followed) exactly when the expansion is. ---- *)
+Theorem C05_glob_refines_expansion : forall t rp, FsTree.wf t -> TreeGlobP.pat_ok rp ->
+  TreeGlobP.eqv (FsTree.c_glob t rp) (FsTree.spec_glob t rp).
+Proof. exact TreeGlobP.glob_refines_expansion. Qed.
+Print Assumptions C05_glob_refines_expansion.
+
+(* a pattern without magic characters names itself, if it is there (and nothing if it is not) *)
+Theorem C05_glob_literal_pattern : forall t rps, FsTree.wf t -> TreeGlobP.pat_ok rps -> FsTree.has_meta rps = false ->
+  TreeGlobP.eqv (FsTree.spec_glob t rps) (TreeGlobP.of_lstat t (TreeGlobP.lit_path rps)).
+Proof. exact TreeGlobP.spec_literal. Qed.
+Print Assumptions C05_glob_literal_pattern.
+
+Example C05_glob_nonvacuous :
+  let t := [([1], FsTree.KDir); ([1; 2], FsTree.KDir); ([1; 2; 3], FsTree.KFile); ([1; 4], FsTree.KLink); ([5], FsTree.KFile)]%nat in
+  let star := {| FsTree.cp_meta := true; FsTree.cp_all := true; FsTree.cp_names := [] |} in
+  let lit n := {| FsTree.cp_meta := false; FsTree.cp_all := false; FsTree.cp_names := [n] |} in
+  FsTree.c_glob t [star; lit 1]%nat = Some [[1; 2]; [1; 4]]%nat /\
+  FsTree.c_glob t [lit 3; star; lit 1]%nat = None /\
+  FsTree.c_glob t [star; lit 2; lit 1]%nat = Some [[1; 2; 3]]%nat /\
+  FsTree.c_glob t [star; star]%nat = Some [[1; 2]; [1; 4]]%nat /\
+  FsTree.c_glob t [star; lit 4; lit 1]%nat = None /\
+  FsTree.c_glob t [lit 9; lit 1]%nat = Some [].
+Proof. vm_compute. repeat split; reflexivity. Qed.
+
+Example C05_glob_pattern_ok :
+  TreeGlobP.pat_ok [{| FsTree.cp_meta := true; FsTree.cp_all := true; FsTree.cp_names := [] |};
+                    {| FsTree.cp_meta := false; FsTree.cp_all := false; FsTree.cp_names := [1%nat] |}].
+Proof.
+  intros c [<-|[<-|[]]] H; [discriminate H | split; reflexivity].
+Qed.
